@@ -64,7 +64,8 @@ ASSUMPTIONS = [
     "impl; the twins keep the length and the struct-literal variant decouples depth from the lengths",
     "NOT covered, observed: zk_circuits_common::zk_merkle::ZkMerkleProof (re-exported by wormhole_circuit::zk_merkle_proof) derives "
     "Debug and prints siblings, positions, leaf_hash and leaf_index in full; it is not one of the redacting impls of the property's "
-    "anchors. The run records this as `observations` in the evidence",
+    "anchors. Likewise zk_circuits_common::circuit::TransferProofJson (JSON loading DTO, derived Debug) prints its transfer_count. "
+    "The run records both as `observations` in the evidence",
     "usize is 64 bit",
 ]
 
